@@ -304,6 +304,32 @@ def _dataset(rng, cls, n, m, names, nmax, mmax):
                 r[j] = r[j] + r.pop(j + 1)
             ds.append(r)
         return ds
+    if cls == "D11":     # strong cycles inside blocks of 3-4 elements, blocks ordered unanimously, rankings that miss
+        order = list(names)   # whole blocks: several non-trivial strongly connected components
+        rng.shuffle(order)
+        blocks, rem, at = [], n, 0
+        while rem > 0:
+            sz = min(rem, rng.choice([3, 3, 4]) if rem >= 3 else rem)
+            blocks.append(order[at:at + sz])
+            at += sz
+            rem -= sz
+        mm = rng.randint(3, max(3, mmax))
+        skip = rng.choice([0.0, 0.2, 0.35])
+        ds = []
+        for i in range(mm):
+            r = []
+            for blk in blocks:
+                if len(blocks) > 1 and rng.random() < skip:
+                    continue
+                kk = i % len(blk)
+                rot = blk[kk:] + blk[:kk]
+                sub = [[e] for e in rot]
+                if len(sub) > 1 and rng.random() < 0.15:
+                    j = rng.randrange(len(sub) - 1)
+                    sub[j] = sub[j] + sub.pop(j + 1)
+                r.extend(sub)
+            ds.append(r)
+        return ds
     if cls == "D12":     # shuffled insertion order, handled by the caller through names
         return _dataset(rng, rng.choice(["D2", "D3"]), n, m, names, nmax, mmax)
     raise ValueError(cls)
